@@ -29,6 +29,7 @@ type SpecEnv struct {
 	head    *State // state at the head of the enclosing loop iteration (for head(e))
 	inUse   bool   // evaluating a `use` clause: axiom schemata may be expanded
 	nbind   int    // number of enclosing quantifiers (kept across spec applications)
+	reveal  map[string]bool // opaque specs expanded in this evaluation (see Clause.Reveal)
 }
 
 func (e *SpecEnv) with(name string, t Term) *SpecEnv {
@@ -965,8 +966,34 @@ func (e *SpecEnv) call(n *ast.CallExpr) Term {
 }
 
 // applySpec expands a defined spec (macro semantics, evaluated in the current state) or applies an uninterpreted one.
+// specPkg: the package a spec was written for (its `//@ package` section), when it is loaded; type names in the
+// spec's signature and body are resolved there, so a spec can be used from other packages.
+func (e *SpecEnv) specPkg(sd *SpecDef) *types.Package {
+	if sd.Pkg == "" || (e.pkg != nil && e.pkg.Name() == sd.Pkg) {
+		return e.pkg
+	}
+	var found *types.Package
+	for _, p := range e.x.prog.AllPkgs {
+		if p.Types != nil && p.Types.Name() == sd.Pkg {
+			if found != nil && found != p.Types {
+				return e.pkg // ambiguous package name: keep the caller's view
+			}
+			found = p.Types
+		}
+	}
+	if found == nil {
+		return e.pkg
+	}
+	return found
+}
+
 func (e *SpecEnv) applySpec(sd *SpecDef, args []Term) Term {
 	x := e.x
+	if sp := e.specPkg(sd); sp != e.pkg {
+		n := *e
+		n.pkg = sp
+		e = &n
+	}
 	if len(args) != len(sd.Params) {
 		e.stale("spec %s: %d arguments, want %d", sd.Name, len(args), len(sd.Params))
 	}
@@ -1025,20 +1052,46 @@ func (e *SpecEnv) applySpec(sd *SpecDef, args []Term) Term {
 	inner.scope = nil
 	inner.results = nil
 	inner.depth = e.depth + 8
-	if !sd.Opaque {
+	if !sd.Opaque || e.reveal[sd.Name] {
 		r := inner.expr(sd.Body)
 		r.T = retT
 		return r
 	}
-	// opaque: expand once to learn which memories the body reads (and, outside quantifiers, to supply the definition)
+	// opaque: expand to learn which memories the body reads (and, outside quantifiers, to supply the definition).
+	// Under a quantifier the body is evaluated only once, on a scratch copy of the state with fresh constants for
+	// the arguments: which memories are read does not depend on the arguments.
 	saved := x.memReads
 	x.memReads = map[string]Term{}
-	r := inner.expr(sd.Body)
-	reads := x.memReads
+	var r Term
+	reads := map[string]Term{}
+	if e.nbind > 0 {
+		if !sd.opaqueDone {
+			scratch := inner
+			scratch.st = e.st.clone()
+			scratch.cur = nil
+			scratch.names = map[string]Term{}
+			for _, p := range sd.Params {
+				a := inner.names[p.Name]
+				c := x.ctx.fresh("opq_arg", a.Sort)
+				scratch.names[p.Name] = Term{S: c, Sort: a.Sort, T: a.T}
+			}
+			scratch.nbind = 0
+			scratch.bound = map[string]Term{}
+			_ = scratch.expr(sd.Body)
+			for k := range x.memReads {
+				reads[k] = Term{}
+			}
+		}
+	} else {
+		r = inner.expr(sd.Body)
+		reads = x.memReads
+	}
 	x.memReads = saved
 	if saved != nil {
 		for k, v := range reads {
-			saved[k] = v
+			if v.S != "" {
+				saved[k] = v
+			}
 		}
 	}
 	if !sd.opaqueDone {
@@ -1047,6 +1100,10 @@ func (e *SpecEnv) applySpec(sd *SpecDef, args []Term) Term {
 			sd.opaqueKeys = append(sd.opaqueKeys, k)
 		}
 		sort.Strings(sd.opaqueKeys)
+		sd.opaqueSort = map[string]string{}
+		for _, k := range sd.opaqueKeys {
+			sd.opaqueSort[k] = x.memSort[k]
+		}
 	} else {
 		have := map[string]bool{}
 		for _, k := range sd.opaqueKeys {
@@ -1069,10 +1126,14 @@ func (e *SpecEnv) applySpec(sd *SpecDef, args []Term) Term {
 		var t Term
 		if k == "alloc!" {
 			t = e.st.alloc
-		} else if rt, ok := reads[k]; ok {
+		} else if rt, ok := reads[k]; ok && rt.S != "" {
 			t = rt
 		} else {
-			t = x.memTerm(e.st, k, x.memSort[k])
+			ms := x.memSort[k]
+			if ms == "" {
+				ms = sd.opaqueSort[k]
+			}
+			t = x.memTerm(e.st, k, ms)
 		}
 		sorts = append(sorts, t.Sort)
 		as = append(as, t.S)
